@@ -55,4 +55,6 @@ MUTANTS = [
     {"id": "c12-resize-remaining-not-reduced", "expect": "fire", "edits": [(C, "                result.append(item)\n                remaining_len -= cur_item_len", "                result.append(item)")]},
     {"id": "c12-n-resize-strict-compare", "expect": "silent", "edits": [(C, "            if cur_item_len <= remaining_len:", "            if cur_item_len < remaining_len:")]},
     {"id": "c12-resize-cuts-argument-in-place", "expect": "fire", "edits": [(C, "                result.append(item.clone(item.text[:remaining_len]))\n                remaining_len = 0", "                result.append(item.clone(item.text[:remaining_len]))\n                remaining_len = 0\n                del chunks[len(result):]")]},
+    # cache-fill purity (R12h / R10j)
+    {"id": "c12-enum-full-text-extends-cached-val-list", "expect": "fire", "edits": [(P, "        full_text_items = []\n        pad_len = val_len - CHText.calc_chunks_len(val_text_items)\n        if pad_len > 0:\n            # align 'value' portion of the text to right\n            full_text_items.append(cp.text(\" \" * pad_len))\n        full_text_items.extend(val_text_items)\n", "        full_text_items = val_text_items\n        pad_len = val_len - CHText.calc_chunks_len(val_text_items)\n        if pad_len > 0:\n            full_text_items = [cp.text(\" \" * pad_len)] + full_text_items\n")]},
 ]
